@@ -68,6 +68,8 @@ def kernel_contract(interp, func, calls):
     defaults = func.defaults or []
     clsreq = class_requirement(func)
     objparams_ = [n for t, n in sig if t == 'object']
+    rets = [n.value for n in ast.walk(func.node) if isinstance(n, ast.Return) and n.value is not None]
+    returns_memoryview = bool(rets) and all(isinstance(r, ast.Name) and str(func.ctypes.get(r.id, '')).replace(' ', '').endswith('[:]') for r in rets)
 
     def contract(itp, args, kwargs):
         names = [n for t, n in sig]
@@ -124,6 +126,9 @@ def kernel_contract(interp, func, calls):
                 v.fill = res
                 v.nfills += 1
         calls.append(res)
+        if returns_memoryview:
+            # ``cdef double [:] x ... return x``: Python receives a typed memoryview, which has no arithmetic
+            return pysym.MemView(res)
         return res
     return contract
 
